@@ -18,11 +18,12 @@ Definition next_c (cs : list outcome) : outcome * list outcome :=
 Definition next_r (rs : list routcome) : routcome * list routcome :=
   match rs with [] => (ROk, []) | o :: r => (o, r) end.
 
-(* one CVode call from internal time tcur to tout: (flag, time returned, state, script left) *)
+(* one CVode call from internal time tcur to tout: (flag, time returned, state, script left);
+   results are kept in lowest terms ([Qred], equal as rationals) so that long scripts stay small *)
 Definition cvode (tcur tout y : Q) (cs : list outcome) : Z * Q * Q * list outcome :=
   match next_c cs with
-  | (COk, r) => (0%Z, tout, y + (tout - tcur), r)
-  | (CFail f rho, r) => (f, tcur + rho * (tout - tcur), y + rho * (tout - tcur), r)
+  | (COk, r) => (0%Z, tout, Qred (y + (tout - tcur)), r)
+  | (CFail f rho, r) => (f, Qred (tcur + rho * (tout - tcur)), Qred (y + rho * (tout - tcur)), r)
   end.
 
 Section Ladder.
